@@ -498,6 +498,8 @@ def dynamic_only(env, gd, mon, dy):
 
 PRE = ("From Coq Require Import List NArith ZArith Bool.\n"
        "From Vy Require Import Model.Base Model.Vectorise Gen.Dispatch.\nImport ListNotations.\n")
+PRE_MODEL = ("From Coq Require Import List NArith ZArith Bool.\n"
+             "From Vy Require Import Model.Base Model.Vectorise.\nImport ListNotations.\n")
 
 
 def symf1(lhs, ctx=None):
@@ -545,7 +547,7 @@ def vectorise_tie(env, mon, dy):
         b = cv_in(args[1], modes[1]) if len(args) == 2 else "VErr"
         return f"({'true' if len(args) == 2 else 'false'}, {a}, {b}, {cv(val)})"
     chk = (f"fun c : (bool * v * v * v) => match c with (dy, a, b, r) => v_eqb (eager (if dy then vectorise2 {f2} a b else vectorise1 {f1} a)) r end")
-    ok, bad, logs = env.coq_mismatches("vec", PRE, lambda lo, hi: V.clist((case_coq(c) for c in good[lo:hi]), "(bool * v * v * v)"), chk, len(good), shard=250)
+    ok, bad, logs = env.coq_mismatches("vec", PRE_MODEL, lambda lo, hi: V.clist((case_coq(c) for c in good[lo:hi]), "(bool * v * v * v)"), chk, len(good), shard=250)
     if not ok:
         env.proof_broken("vectorise correspondence cases failed to evaluate", logs)
     for i in bad:
@@ -636,6 +638,9 @@ def run(env):
     env.assume("what an element does when every argument is a scalar is arbitrary (`base`); the model's Z stands for int and Rational alike")
     env.assume("Python's dict display / .get on vy_type tuples behaves as the model's Table (last equal key wins); checked per element by the element tie, not proved")
     env.assume("LazyList(iterator) yields the iterator's items in order (C13's model); forcing a result list terminates")
+    env.assume("results are compared as a LazyList delivers them: LazyList.__next__ applies helpers.vyxalify, which turns floats and inexact sympy "
+               "numbers into exact ones (2**-1 is the float 0.5 alone and Rational(1,2) inside a vectorised result; the property observes simplified results, where both are 0.5)")
+    env.assume("random.choice / randint / shuffle are replaced by deterministic functions inside the oracle's worker processes (ƈ draws at random), otherwise 'the result on an item' is not defined")
     env.assume("the translator's Vec leaves are exact: `return vectorise(<same function>, <unmodified parameters in order>)` in tail position")
 
 
